@@ -24,8 +24,17 @@ HARNESSES = {
         ("varint_roundtrip", "C21.roundtrip", "every v in [-2^55, 2^55): write_varint emits spec_size(v) bytes (shortest), read_varint (strict and lenient) returns v and consumes exactly those bytes"),
         ("varint_decode_total", "C21.decode", "every 9-byte buffer, every available length 0..=9, both modes: no panic; Ok(v) => consumed == 1+leading_ones, v == the two's-complement value denoted, strict => shortest; Err only for empty/0xff/truncated input or (strict) a non-minimal encoding"),
     ],
+    "C15": [
+        ("prefix_encoder_matches_spec", "C15.kani.prefix_encoder", "every size (u64) and first byte: write_atom_encoding_prefix_with_size emits exactly the format's length prefix; sizes >= 2^34 are refused"),
+        ("prefix_decoder_inverts_spec", "C15.kani.prefix_roundtrip", "every size < 2^34: decode_size_with_offset on the format's prefix returns (prefix length, size) and consumes the prefix"),
+        ("canonical_atom_iff_minimal_prefix", "C15.kani.canonical_atom", "every 8-byte prefix buffer and available length: is_canonical_atom is true exactly when the prefix is the one the format defines for the size it denotes (minimal), incl. the one-byte-atom rule"),
+    ],
+    "C16": [
+        ("prefix_decoder_total", "C16.kani.prefix_total", "every first byte and 7 following bytes, every available length: decode_size_with_offset never panics; Ok => offset == leading ones <= 6, size < 2^34 == the value denoted, consumed offset-1 bytes; Err only for >6 leading ones, truncated input, or size >= 2^34"),
+        ("canonical_atom_iff_minimal_prefix", "C16.kani.canonical_atom", "is_canonical_atom never panics and accepts exactly minimal prefixes (all 8-byte buffers)"),
+    ],
 }
-SOURCES = ["src/serde_2026/varint.rs", "src/error.rs"]
+SOURCES = ["src/serde_2026/varint.rs", "src/error.rs", "src/serde/parse_atom.rs", "src/serde/write_atom.rs", "src/serde/tools.rs", "src/serde/mod.rs"]
 
 
 def src_hash():
@@ -45,7 +54,8 @@ def run_harness(name, use_cache):
         d = json.load(open(cpath))
         d["cache_hit"] = True
         return d
-    env = dict(os.environ, CARGO_NET_OFFLINE="true", CARGO_TARGET_DIR=os.path.join(R.CACHE, "kani-target"))
+    env = dict(os.environ, CARGO_NET_OFFLINE="true", CARGO_TARGET_DIR=os.path.join(R.CACHE, "kani-target-hooks"),
+               RUSTFLAGS="--cfg chia_network_clvm_rs_verif")
     crate = os.path.join(VERIF, "kani")
     if not os.path.exists(os.path.join(crate, "Cargo.lock")):
         subprocess.run(["cp", "/repo/Cargo.lock", os.path.join(crate, "Cargo.lock")])
@@ -75,27 +85,22 @@ def run_harness(name, use_cache):
     return d
 
 
-def main():
-    import argparse
-    ap = argparse.ArgumentParser()
-    ap.add_argument("pid")
-    ap.add_argument("--tier", default=os.environ.get("VERIF_TIER", "quick"))
-    a = ap.parse_args()
-    pid = a.pid
-    seed = int(os.environ.get("VERIF_SEED", "0") or 0)
-    t0 = time.time()
-    use_cache = a.tier == "quick" and os.environ.get("VERIF_NO_CACHE") != "1"
-    results = []
+def run_group(pid, tier, seed):
+    """returns dict(lines, rc, undecided, obligations, failed, results, finder)"""
+    use_cache = tier == "quick" and os.environ.get("VERIF_NO_CACHE") != "1"
     from concurrent.futures import ThreadPoolExecutor
-    with ThreadPoolExecutor(max_workers=2) as ex:
-        results = list(ex.map(lambda h: run_harness(h[0], use_cache), HARNESSES[pid]))
+    # the first harness builds the crate; run it alone, then the rest in parallel
+    hs = HARNESSES[pid]
+    results = [run_harness(hs[0][0], use_cache)]
+    with ThreadPoolExecutor(max_workers=3) as ex:
+        results += list(ex.map(lambda h: run_harness(h[0], use_cache), hs[1:]))
     lines = []
     rc = 0
     undecided = []
     obligations = sum(r["checks_total"] for r in results)
     failed = sum((r["checks_failed"] or 0) for r in results)
     finder = None
-    for (name, label, text), r in zip(HARNESSES[pid], results):
+    for (name, label, text), r in zip(hs, results):
         if r["successful"]:
             continue
         if r["failed"] and not r["unwinding_failed"] and r["failures"]:
@@ -111,7 +116,21 @@ def main():
             lines.append(f"VIOLATION property={pid} replay={rpath}" + ("" if found else " no-failing-input-found"))
             rc = 1
         else:
-            undecided.append(f"harness {name}: no verdict (rc={r['rc']}, unwinding_failed={r['unwinding_failed']}): {r['tail'][-300:]}")
+            undecided.append(f"kani harness {name}: no verdict (rc={r['rc']}, unwinding_failed={r['unwinding_failed']}): {r['tail'][-300:]}")
+    return {"lines": lines, "rc": rc, "undecided": undecided, "obligations": obligations, "failed": failed, "results": results, "finder": finder}
+
+
+def main():
+    import argparse
+    ap = argparse.ArgumentParser()
+    ap.add_argument("pid")
+    ap.add_argument("--tier", default=os.environ.get("VERIF_TIER", "quick"))
+    a = ap.parse_args()
+    pid = a.pid
+    seed = int(os.environ.get("VERIF_SEED", "0") or 0)
+    t0 = time.time()
+    g = run_group(pid, a.tier, seed)
+    lines, rc, undecided, obligations, failed, results, finder = g["lines"], g["rc"], g["undecided"], g["obligations"], g["failed"], g["results"], g["finder"]
     if undecided and rc == 0:
         R.build_replay()
         finder = R.run_replay(["search", pid, "any", "any", str(seed)], timeout=600)
